@@ -315,6 +315,47 @@ def gen_targeted(rng: random.Random) -> dict:
     return {"nodes": nodes, "how": how, "qs": qs}
 
 
+HEAVY_BUDGET = 1_200_000
+
+
+def gen_heavy(rng: random.Random) -> dict:
+    """A long repetition of a set with 3-6 distinct residues: tens of thousands of multicombinations after the `equivalent k`
+    reduction.  Far above the per-query budget of the ordinary cases, so that code paths selected by the SIZE of the
+    enumeration (shortcuts for 'too many' combinations) are exercised; one or two residue queries only."""
+    for _ in range(50):
+        d = rng.choice([12, 16, 24, 32, 48, 64])
+        m = rng.randint(3, 6)
+        step = rng.choice([1, 2, 3, 4, 8, d // 4])
+        base = rng.randrange(d)
+        res = sorted({(base + step * rng.randrange(d)) % d for _ in range(m)})
+        if len(res) < 3:
+            continue
+        leaf = sorted({r + d * rng.choice([0, 0, 1, 2, 5]) for r in res})
+        k = rng.choice([2 * d, 2 * d + 1, 3 * d - 1, 5 * d + 3, 200, 2**40 + rng.randrange(d), 2**63 + rng.randrange(d)])
+        kind = rng.choice(["rep", "rep", "rrep"])
+        nodes: typing.List[list] = [["leaf", leaf], [kind, 0, k]]
+        how = ["set", kind]
+        top = 1
+        r = rng.random()
+        if r < 0.3:
+            nodes.append(["leaf", [rng.choice([0, 8, 16, 3])]]); how.append("int")
+            nodes.append(["cat", [2, 1]]); how.append("op"); top = 3
+        elif r < 0.5:
+            nodes.append(["pad", 1, rng.choice([2, 4, 8])]); how.append("pad"); top = 2
+        elif r < 0.6:
+            nodes.append(["leaf", [rng.choice([1, 5, 40])]]); how.append("int")
+            nodes.append(["uni", [1, 2]]); how.append("op"); top = 3
+        c = _cost(nodes, top, d, {})
+        if not (12_000 <= c <= HEAVY_BUDGET):
+            continue
+        qs = [["mod", top, d]]
+        if rng.random() < 0.5:
+            qs.append([rng.choice(["aligned", "mod"]), 1, d])
+        qs.append([rng.choice(["min", "max"]), top])
+        return {"nodes": nodes, "how": how, "qs": qs}
+    return {"nodes": [["leaf", [1]]], "how": ["int"], "qs": []}
+
+
 def gen_lookalike_union(rng: random.Random) -> dict:
     """Union (and concatenation) of two DIFFERENT sets that the approximate BitLengthSet equality cannot tell apart
     (same min, max and residues modulo 32): nothing may be merged or dropped on the strength of `==` / hash."""
@@ -417,6 +458,10 @@ def gen_case(rng: random.Random, prop: str) -> dict:
             return c
     elif x < 0.46:
         c = gen_lookalike_twins(rng)
+        if c["qs"]:
+            return c
+    elif x < 0.475:
+        c = gen_heavy(rng)
         if c["qs"]:
             return c
     nodes: typing.List[list] = []
@@ -730,6 +775,11 @@ class BlsSuite(common.Suite):
                 node = case["nodes"][q[1]]
                 if node[0] in ("rep", "rrep") and node[2] >= q[2]:
                     yield "reduction-active(k>=d)"
+                try:
+                    if _cost(case["nodes"], q[1], q[2], {}) > MOD_BUDGET:
+                        yield "heavy-enumeration(>%d items)" % MOD_BUDGET
+                except Exception:  # noqa: BLE001
+                    pass
         yield "depth:%d" % _depth(case["nodes"], len(case["nodes"]) - 1)
 
     def nontrivial(self, case, impl):
